@@ -335,7 +335,7 @@ def run_case(case: dict) -> dict:
                 if n2 is not None:
                     try:
                         y2 = n2.write_yaml()
-                        evs.append({"op": "resave", "ok": 1, "yd": digest(y2), "yd1": sv["yd"]})
+                        evs.append({"op": "resave", "ok": 1, "yd": digest(y2), "yd1": sv["yd"], "text": y2})
                     except Exception as e:
                         evs.append({"op": "resave", "ok": 0, "yd": "", "yd1": sv["yd"], "exc": f"{type(e).__name__}"})
         out[en] = evs
@@ -460,6 +460,40 @@ def doc_features(doc: dict) -> dict:
             "modules": len(doc["mods"]), "nets": len(doc["nets"])}
 
 
+def loss_pattern(clause: str, o1: dict, o2: dict) -> str:
+    """a label for HOW a round-trip clause failed (a feature for known-finding matching only, never a verdict)"""
+    if len(o1["mods"]) != len(o2["mods"]):
+        return "other"
+    pairs = list(zip(o1["mods"], o2["mods"]))
+    if clause == "areas":
+        bad = [(a, b) for a, b in pairs if sorted(map(tuple, a["areas"])) != sorted(map(tuple, b["areas"]))]
+        if bad and all(b["areas"] == [[GROUND, sum(x[1] for x in a["areas"])]] and
+                       not (len(a["areas"]) == 1 and a["areas"][0][0] == GROUND) for a, b in bad):
+            return "region_map_collapsed_to_sum"
+    if clause == "kind":
+        bad = [(a, b) for a, b in pairs if a["kind"] != b["kind"]]
+        if bad and all(a["kind"] == [1, 0, 0, 1] and b["kind"] == [1, 0, 0, 0] for a, b in bad):
+            return "flip_lost"
+    return "other"
+
+
+def text_pattern(y1: str, y2: str) -> str:
+    """how two written texts differ: only in the last bits of floating-point literals, or otherwise"""
+    l1, l2 = y1.splitlines(), y2.splitlines()
+    if not y1 or not y2 or len(l1) != len(l2):
+        return "other"
+    diff = [(a, b) for a, b in zip(l1, l2) if a != b]
+    try:
+        for a, b in diff:
+            pa, pb = a.strip().lstrip("- ").strip(), b.strip().lstrip("- ").strip()
+            va, vb = float(pa), float(pb)
+            if abs(va - vb) > 1e-12 * max(abs(va), abs(vb), 1e-300):
+                return "other"
+    except ValueError:
+        return "other"
+    return "float_last_bits" if diff else "other"
+
+
 def nontrivial_doc(doc: dict) -> bool:
     return bool(doc["nets"]) or any(m["rects"]["rs"] or m["area"]["form"] == "d" or m["center"] for m in doc["mods"])
 
@@ -503,6 +537,7 @@ def decide(ctx: Ctx, cases: list[dict]):
                 traces[key] = t
                 owners[key] = []
                 texts[key] = {e["op"]: e.get("exc") or e.get("text", "") for e in evs}
+                texts[key]["first_emb"] = en
             owners[key].append(en)
     verdicts = tlc.validate_traces(ctx, "FpefTrace", "FpefTrace", list(traces.values()), chunk=3000)
     for key, v in verdicts.items():
@@ -517,14 +552,18 @@ def decide(ctx: Ctx, cases: list[dict]):
                 ctx.model_drift(f"load: {clause} (judged by C05)")
                 continue
             detail = {"event": ev["op"], "embeddings": owners[key]}
+            pattern = "other"
+            if ev["op"] == "resave":
+                pattern = text_pattern(texts[key].get("save") or "", texts[key].get("resave") or "")
             if ev["op"] == "reload" and ev.get("acc") == 1:
                 o1, o2 = t["events"][0]["obs"], ev["obs"]
+                pattern = loss_pattern(clause, o1, o2)
                 detail["differs"] = [{"module": a["name"], "written": {k: a[k] for k in ("kind", "areas", "center", "aspect", "rects")},
                                       "read_back": {k: b[k] for k in ("kind", "areas", "center", "aspect", "rects")}}
                                      for a, b in zip(o1["mods"], o2["mods"]) if a != b][:3]
             detail["text"] = (texts[key].get("save") or "")[:600]
             ctx.violation(clause, {"doc": t["doc"], "embeddings": owners[key]}, detail,
-                          {**feats, "event": ev["op"], "embedding": owners[key][0]})
+                          {**feats, "event": ev["op"], "embedding": owners[key][0], "pattern": pattern})
         for (l, what) in v["drift"]:
             ctx.model_drift(f"{t['events'][l - 1]['op']}: {what}")
     for t in list(traces.values())[:3]:
@@ -544,9 +583,9 @@ def run(ctx: Ctx) -> int:
         return ctx.finish("model_checking", "replay of one recorded document")
     tier = ctx.tier
     tlc.model_check(ctx, "Fpef", f"Fpef_c04_mc_{tier}", vacuity_ignore=("Emit", "Defect"))
-    gen = generated_docs(ctx, f"Fpef_c04_gen_{tier}")
+    gen = generated_docs(ctx, f"Fpef_gen_{tier}")
     rng = random.Random(ctx.seed * 1000003 + 4)
-    budget = 2600 if tier == "quick" else 40000
+    budget = 2600 if tier == "quick" else 30000
     docs = [g["doc"] for g in gen]
     if len(docs) > budget:     # the model check covers all; replay a seeded sample (all one-module documents kept)
         single = [d for d in docs if len(d["mods"]) == 1]
